@@ -26,11 +26,17 @@ DET_COVERAGE = [
     "evaluated only where the sign-carrying arguments are negative",
     "control-order: three controls with pairwise different noises given as a LIST that is not in name order, a control Jacobian whose "
     "columns all differ (state-dependent), predictions compared (covariance = G P G^T + V M V^T pairs each control with its own noise)",
+    "exact-reading: readings that equal the by-hand predicted reading bit for bit (dyadic states, calibrations and coefficients, so the "
+    "innovation is exactly 0.0 in every component), for a two-reading and a one-reading sensor, first step and later steps, with a "
+    "prediction in between, once with k = 1.5 and CSE and once with the check disabled and no CSE; the state stays and the covariance after the update has to be the C++ one (it shrinks)",
+    "zero-dt: predictions with dt exactly 0.0 on a discrete-time model that is NOT the identity at dt = 0 (decay factor on a state, a "
+    "control and a calibration entering without dt), first step and after an update / an ordinary prediction; state and covariance "
+    "of the prediction compared as for any other dt",
 ]
 RULE = ("the same definition/noise/calibration/config compiled as a Python filter and as generated C++ (g++), driven through chains of "
         "prediction and sensor-update steps with identical binary64 inputs (the Python result feeds the next step of both); compared by "
         "name: state, covariance, stored innovation, accept/reject; all control/calibration presences, CSE on/off, k>0 or disabled; distinct "
-        "by (definition, config, step input); non-trivial = update with >=2 readings or prediction with control; plus four fixed "
+        "by (definition, config, step input); non-trivial = update with >=2 readings or prediction with control; plus six fixed "
         "(seed-independent) filters driven through fixed histories: " + "; ".join(DET_COVERAGE))
 NOTE = ["on rational definitions every compared step is also run through the exact Lean model on the same binary64 inputs (as exact "
         "rationals) and both filters are compared with it (three-way correspondence)",
@@ -329,6 +335,30 @@ def _fixed_specs():
     specs.append(dict(name="control-order", d=d, process={"wa": F(1, 4), "wb": F(2), "wc": F(9, 8)}, sensor={"imu0": {"ma": F(1, 2), "mb": F(3, 4)}},
                       cals=[{}], cse=True, k=None, container="list", x0={"sa": F(3, 2), "sb": F(-5, 4)},
                       P0=[[F(1), F(1, 4)], [F(1, 4), F(3, 4)]], script=script))
+
+    # -- exact-reading -------------------------------------------------------------------------------------------------------
+    ex, ev = _S("ex", "ev"); (eu,) = _S("eu"); (eo,) = _S("eo")
+    d = gen.Definition(dt, [ev, ex], [eu], [eo],
+                       {ex: ex + ev * dt, ev: ev + eu * dt},
+                       {"fix0": {"along": ex * 2 + eo, "cross": ev - ex / 4}, "log1": {"speed": ev * 3 - eo / 2}})
+    zero2, zero1 = {"along": F(0), "cross": F(0)}, {"speed": F(0)}
+    script = [("update", "fix0", zero2), ("update", "log1", zero1), ("predict", F(1, 16), {"eu": F(1, 2)}),
+              ("update", "fix0", zero2), ("update", "fix0", {"along": F(1, 8), "cross": F(-1, 4)}), ("update", "log1", zero1)]
+    for nm, k_, cse_ in (("exact-reading", 1.5, True), ("exact-reading-nofilter", None, False)):
+        specs.append(dict(name=nm, d=d, process={"eu": F(3, 4)}, sensor={"fix0": {"along": F(1, 2), "cross": F(5, 8)}, "log1": {"speed": F(3, 2)}},
+                          cals=[{"eo": F(3, 8)}], cse=cse_, k=k_, container="set", x0={"ex": F(5, 4), "ev": F(-3, 2)},
+                          P0=[[F(3, 2), F(1, 4)], [F(1, 4), F(2)]], script=script))
+
+    # -- zero-dt -------------------------------------------------------------------------------------------------------------
+    zp, zv = _S("zp", "zv"); (za,) = _S("za"); (zg,) = _S("zg")
+    d = gen.Definition(dt, [zv, zp], [za], [zg],
+                       {zp: zp + zv * dt + za / 4, zv: zv * zg + za - zp * dt / 2},
+                       {"enc0": {"pos": zp + zv / 2, "spd": zv * zg}})
+    script = [("predict", F(0), {"za": F(3, 2)}), ("update", "enc0", {"pos": F(1, 8), "spd": F(-1, 4)}), ("predict", F(1, 16), {"za": F(-1, 2)}),
+              ("predict", F(0), {"za": F(-3, 4)}), ("predict", F(0), {"za": F(0)})]
+    specs.append(dict(name="zero-dt", d=d, process={"za": F(5, 8)}, sensor={"enc0": {"pos": F(1, 2), "spd": F(3, 4)}},
+                      cals=[{"zg": F(3, 4)}], cse=True, k=5.0, container="set", x0={"zp": F(3, 4), "zv": F(-5, 2)},
+                      P0=[[F(1), F(-1, 4)], [F(-1, 4), F(3, 2)]], script=script))
     return specs
 
 
@@ -395,6 +425,8 @@ def _fixed_chain(ctx, sp, exe, ekf, cal, cfgdesc):
                 hand = _hand_reading(d, key, x, cal)
                 z = {r: float(F(hand[r]).limit_denominator(1 << 16) + act[2][r]) for r in Lr}
                 case.update(op=f"update:{key}", z=z, by_hand_prediction=hand)
+                if all(z[r2] == hand[r2] for r2 in Lr):
+                    ctx.count("reading_equals_by_hand_prediction")
                 line = cppgen.point_line(f"update:{key}", d, cur, P.tolist(), z)
                 with fk.quiet():
                     r = ekf.sensor_model(st, cv, sensor_key=key, sensor_reading=ekf.make_reading(key, **z))
@@ -408,6 +440,8 @@ def _fixed_chain(ctx, sp, exe, ekf, cal, cfgdesc):
                 near = thr is not None and abs(nis - thr) <= 1e-7 * (1 + thr)
             else:
                 case.update(op="predict")
+                if cur["dt"] == 0:
+                    ctx.count("prediction_with_dt_zero")
                 line = cppgen.point_line("predict", d, cur, P.tolist())
                 with fk.quiet():
                     r = ekf.process_model(float(cur["dt"]), st, cv, ekf.Control(**{s: float(v) for s, v in cur["control"].items()}))
